@@ -124,8 +124,7 @@ class System:
         kind = op['op']
         a = {k: self.value(v, n) for k, v in op.get('args', {}).items()}
         if kind == 'o.set_states':
-            sigs = [(self.worlds[t % len(self.worlds)].name if op.get('sig') == 'name' else self.worlds[t % len(self.worlds)])
-                    for t in op['targets']]
+            sigs = [self._signature(self.worlds[t % len(self.worlds)], op.get('sig')) for t in op['targets']]
             plural = {'eccentricity': 'eccentricities', 'semi_major_axis': 'semi_major_axes',
                       'orbital_frequency': 'orbital_frequencies', 'orbital_period': 'orbital_periods'}
             kw = {plural[k]: [self.value(v, n) for v in vals] for k, vals in op['lists'].items()}
@@ -133,9 +132,9 @@ class System:
         elif kind == 'w.set_state':
             w.set_state(**a)
         elif kind == 'o.set_state':
-            o.set_state(w, **a)
+            o.set_state(self._signature(w, op.get('sig')), **a)
         elif kind == 'o.setter':
-            getattr(o, op['name'])(w.name if op.get('sig') == 'name' else w, a['value'])
+            getattr(o, op['name'])(self._signature(w, op.get('sig')), a['value'])
         elif kind == 'w.aug':
             # augmented assignment on a world property (`world.n *= 0.5`): the object handed back to the setter is the very
             # array the orbit already stores, modified in place
@@ -166,6 +165,15 @@ class System:
                 layer.set_temperature(a['value'])
         else:
             raise ValueError('unknown op %r' % kind)
+
+    def _signature(self, w, how):
+        """The three ways the orbit API accepts to designate a world: instance, name, integer orbit index
+        (the tidal host is index 0, the tidal bodies follow in the order they were added)."""
+        if how == 'name':
+            return w.name
+        if how == 'index':
+            return 0 if w is self.host else 1 + self.worlds.index(w)
+        return w
 
     # ---------------------------------------------------------------------------------------------
     def observe(self):
